@@ -4,7 +4,7 @@
    array, shape and contents of the index array.  [case_ok] runs the model on the same
    abstract input and compares. *)
 From Coq Require Import List Bool Arith ZArith NArith.
-From PC Require Import Base.Outcome Model.IndexTable Model.PrimCtor Model.PrimIter Check.PrimCase.
+From PC Require Import Base.Outcome Model.IndexTable Model.PrimCtor Model.PrimIter Model.PrimLoad Check.PrimCase.
 Import ListNotations.
 
 (* tag (0 vertex, 1 normal, 2 texcoord, 3 textangent, 4 texbinormal), array rows, array
@@ -38,13 +38,44 @@ Definition accobs_eqb (a b : accobs) : bool :=
 Inductive case :=
   | CPrim (kd : kind) (srcs : list csrc) (ins : list cinput) (mat : option N) (s : stream)
           (code : nat) (acc : option accobs)
+  (* the same through a loaded document: per source (rows, components after loading, S/T/P form,
+     accessor stride/offset/count attributes as written); the model is [load_prim] *)
+  | CPrimLoad (kd : kind) (srcs : list (nat * nat * bool * (nat * nat * nat))) (ins : list cinput)
+              (mat : option N) (s : stream) (code : nat) (acc : option accobs)
   | CSource (n ncomp : nat) (code : nat)
   (* a source loaded from a document: S,T,P form or not, n values 1..n, number of <param>s;
      observed: exception code, or rows / components / data of the loaded source *)
   | CSourceLoad (stp : bool) (n nparams : nat) (code : nat) (acc : option (nat * nat * list (list Z))).
 
+Definition xs_of (i : nat) (c : nat * nat * bool * (nat * nat * nat)) : xsource :=
+  let '(n, nc, stp, (st, off, ct)) := c in
+  let w := if stp then 3 else nc in
+  XS stp (concat (mk_rows i n w)) w st off ct.
+
+Fixpoint xentries (i : nat) (srcs : list (nat * nat * bool * (nat * nat * nat))) : list xentry :=
+  match srcs with [] => [] | c :: r => XSrc (xs_of i c) :: xentries (S i) r end.
+
+Definition verts_of (ins : list cinput) : list (vsem * nat) :=
+  flat_map (fun ci => match snd ci with CVerts d => d | _ => [] end) ins.
+
+Definition xin_of (nsrc : nat) (ci : cinput) : xinput :=
+  let '(off, sm, t) := ci in
+  (off, sm, match t with
+            | CSrc i => XRef i
+            | CVerts _ => XRef nsrc            (* the <vertices> element follows the sources *)
+            | CMissing => XRef (S nsrc)
+            | CBad => XBadRef
+            end).
+
 Definition case_ok (c : case) : bool :=
   match c with
+  | CPrimLoad kd srcs ins mat s code acc =>
+      let es := xentries 0 srcs ++ [XVerts (verts_of ins)] in
+      match load_prim kd es (map (xin_of (length srcs)) ins) mat s, acc with
+      | Ok p, Some a => Nat.eqb code 0 && accobs_eqb (observe p) a
+      | Raise e, None => Nat.eqb code (exn_code e)
+      | _, _ => false
+      end
   | CPrim kd srcs ins mat s code acc =>
       match create kd (map (raw_of srcs) ins) mat s, acc with
       | Ok p, Some a => Nat.eqb code 0 && accobs_eqb (observe p) a
